@@ -56,6 +56,8 @@ def probe_ops(case, rng, full, inside_batch):
             ns = [x for b in k for x in (b >> 4, b & 15)]
             cut = rng.randint(0, len(ns))
             ops.append(("traverse_from", ns[:cut], ns[cut:]))
+    if rng.random() < 0.5:
+        ops.insert(rng.randint(0, len(ops)), ("root_node",))
     return ops
 
 
@@ -96,7 +98,7 @@ def run_case(case, tier):
         last_state = None
         for op in ops:
             ref = None
-            if op[0] in ("get", "exists", "traverse", "traverse_from"):
+            if op[0] in ("get", "exists", "traverse", "traverse_from", "root_node"):
                 ref = HX.step(tc, op, cback)
             out = HX.step(t, op, backing)
             outs.append(out)
@@ -107,7 +109,7 @@ def run_case(case, tier):
                            "complete database instead of raising MissingTrieNode")
             if op[0] == "state":
                 last_state = out
-            elif bad is None and not inside and op[0] in ("get", "exists", "set", "del", "traverse", "traverse_from"):
+            elif bad is None and not inside and op[0] in ("get", "exists", "set", "del", "traverse", "traverse_from", "root_node"):
                 bad = bad or check_report(case, op, out, removed, dict(cback), t, backing, last_state, stats, ref)
         if bad is None and inside:
             for o, x in zip(ops[pre][1], outs[pre][0]):
@@ -151,6 +153,8 @@ def check_report(case, op, out, removed, full, t, backing, last_state, stats, re
                     return "get: the nibble prefix does not lead to the missing node"
         else:
             pre = out.args[1]
+            if op[0] == "root_node" and (list(pre) != [] or h != bytes(t.root_hash)):
+                return "root_node: MissingTraversalNode does not name the root at the empty path"
             if op[0] == "traverse" and (list(pre) != list(op[1])[: len(pre)] or not on_path(full, bytes(t.root_hash), list(pre), h)):
                 return "traverse: nibbles_traversed does not lead to the missing node"
         if op[0] in ("set", "del"):
@@ -160,7 +164,7 @@ def check_report(case, op, out, removed, full, t, backing, last_state, stats, re
                 return f"failed {op[0]} changed root / database / reference counts"
             if t._pending_prune_keys is not None:
                 return "pending prune table left behind by a failed call"
-    elif op[0] in ("get", "exists", "traverse", "traverse_from"):
+    elif op[0] in ("get", "exists", "traverse", "traverse_from", "root_node"):
         if out != ref:
             return f"{op[0]} on the incomplete database returned {out!r}; complete database gives {ref!r}"
     return None
